@@ -103,7 +103,25 @@ func (j *worldJSON) toWorld() *world {
 
 // ---------------------------------------------------------------- Coq printing
 
-func cb(s string) string { return `(b "` + strings.ReplaceAll(s, `"`, `""`) + `")` }
+// frequent long strings are printed as the constants of Model.v (shorter terms elaborate much faster in Coq)
+var cbConst = map[string]string{"projectcalico.org/orchestrator": "L_ORCH", "projectcalico.org/namespace": "L_NAMESPACE",
+	"projectcalico.org/serviceaccount": "L_SA", "projectcalico.org/name": "L_NAME", "k8s": "V_K8S",
+	"kubernetes.io/metadata.name": "K_KMN", "app.kubernetes.io/name": "K_AKN", "default": "T_DEFAULT",
+	"tcp": "S_TCP", "udp": "S_UDP", "sctp": "S_SCTP"}
+
+func cb(s string) string {
+	if c, ok := cbConst[s]; ok {
+		return c
+	}
+	for _, pfx := range [][2]string{{"pcns.", "PCNS"}, {"pcsa.", "PCSA"}, {"kns.", "KNS"}} {
+		if strings.HasPrefix(s, pfx[0]) {
+			if c, ok := cbConst[s[len(pfx[0]):]]; ok {
+				return "(" + pfx[1] + " ++ " + c + ")"
+			}
+		}
+	}
+	return `(b "` + strings.ReplaceAll(s, `"`, `""`) + `")`
+}
 func clist(xs []string) string {
 	return "[" + strings.Join(xs, "; ") + "]"
 }
